@@ -307,6 +307,63 @@ def judge_preemptive(case):
             "key": ["pre", case["shared"], case["ops"]], "sample": {"pre-emptive": True, "ops": case["ops"], "rounds": case["rounds"]}}
 
 
+# --------------------------------------------------------------------------- construction storm (real threads, long parses)
+def _storm_text(k):
+    if k % 3 == 0:
+        return "def chain%d { splitters: uid /* long parse */ %s }" % (k, _chain(300 + 10 * k))
+    if k % 3 == 1:
+        return "def many%d { salt: \"s%d\" splitters: uid return %s }" % (k, k, ", ".join('"g%d" weighted %d' % (i, i % 5 + 1) for i in range(5000 + 200 * k)))
+    return "/* %s */ def chain%d { splitters: uid %s } // %s" % ("long comment * / " * 3000, k, _chain(280 + 10 * k), "trailing " * 2000)
+
+
+def judge_storm(case):
+    """many threads construct evaluators from LONG sources at the same moment (every parse overlaps with all the others for
+    its whole duration, real pre-emptive threads): every construction must succeed and equal the one made alone"""
+    E = sut.evaluator_mod().ExperimentEvaluator
+    texts = [_storm_text(k) for k in case["texts"]]
+    probes = [{"uid": "u%d" % i, "route": r} for i, r in enumerate([0, 1, 7, 449, 10 ** 6, 3, 200, 5])]
+    alone = {}
+    for t in set(texts):
+        ev0 = E(t)
+        alone[t] = [sut.call(ev0, p) for p in probes]
+    viol = []
+    old = sys.getswitchinterval()
+    sys.setswitchinterval(case["interval"])
+    try:
+        for rnd in range(case["rounds"]):
+            results = [None] * len(texts)
+            barrier = threading.Barrier(len(texts))
+
+            def work(i):
+                try:
+                    barrier.wait(timeout=60)
+                    ev = E(texts[i])
+                    results[i] = ("ok", [sut.call(ev, p) for p in probes])
+                except BaseException as e:
+                    results[i] = ("exc", type(e).__name__, str(e)[:200])
+
+            ts = [threading.Thread(target=work, args=(i,), daemon=True) for i in range(len(texts))]
+            for t in ts:
+                t.start()
+            for t in ts:
+                t.join(timeout=600)
+            for i, r in enumerate(results):
+                if r is None:
+                    raise runner.HarnessError("storm thread %d did not finish within 600 s" % i)
+                if r[0] != "ok":
+                    viol.append("construction storm (%d threads, round %d): thread %d constructing a %d-character source raised %s: %s; alone "
+                                "the same source compiles" % (len(texts), rnd, i, len(texts[i]), r[1], r[2]))
+                elif r[1] != alone[texts[i]]:
+                    viol.append("construction storm (%d threads, round %d): the evaluator built by thread %d differs from the one built alone"
+                                % (len(texts), rnd, i))
+            if viol:
+                break
+    finally:
+        sys.setswitchinterval(old)
+    return {"viol": viol[:3], "nontrivial": True, "tags": ["construction-storm", "threads:%d" % len(texts)],
+            "key": ["storm", case["texts"], case["interval"]], "sample": {"storm_threads": len(texts), "source_lengths": [len(t) for t in texts][:4]}}
+
+
 # --------------------------------------------------------------------------- cold start (fresh interpreter per case)
 def judge_cold(case):
     """the first compilations of a process overlap: nothing was parsed, compiled or evaluated before the threads start"""
@@ -340,6 +397,8 @@ def judge_case(record):
     c = record["case"]
     if "preempt_after" in c:
         return judge_cold(c)["viol"]
+    if "texts" in c:
+        return judge_storm(c)["viol"]
     return (judge_preemptive(c) if "rounds" in c else judge(c))["viol"]
 
 
@@ -357,6 +416,13 @@ def run(ctx, rec):
                      st.integers(0, len(SOURCES) - 1),
                      st.lists(st.one_of(st.integers(1, 400), st.integers(400, 6000), st.integers(6000, 200000)), min_size=6, max_size=6, unique=True))
     runner.hyp_run(ctx, rec, "cold-start", cold, judge_cold, ctx.n(3, 6), shrink=False)
+    if rec.violations:
+        return
+    if ctx.shard == 0:
+        storms = [{"texts": list(range(24)), "interval": 1e-6, "rounds": 1}, {"texts": [0] * 8 + [1] * 8, "interval": 0.005, "rounds": 1}]
+        if not ctx.quick:
+            storms += [{"texts": list(range(32)), "interval": 1e-6, "rounds": 2}, {"texts": [2] * 16, "interval": 1e-5, "rounds": 3}]
+        runner.direct_run(ctx, rec, "construction-storm", storms, judge_storm)
     if rec.violations or ctx.quick:
         return
 
